@@ -325,9 +325,37 @@ HEUR = {}        # program term -> {subroutine: AggressiveUnroll.inline_heuristi
 KIDLE_SRC = ("@tweezer\ndef kidle(a: float, b: float):\n    g = grid.from_positions([a, a + 1.0], [b, b + 2.0])\n    action.set_loc(g)\n    action.turn_on(action.ALL, [0])\n"
                "    action.move(grid.shift(g, 0.5, 0.0))\n    action.turn_on([], [1])\n    action.move(grid.shift(g, 0.5, 1.0))\n    action.turn_on([0, 1], [1])\n    action.turn_off([1], [])\n"
                "    action.move(grid.shift(g, 1.5, 1.0))\n    action.turn_off([0], action.ALL)\n    action.turn_on([0], action.ALL)\n    action.move(grid.shift(g, 2.0, 1.0))\n"
-               "    action.turn_off(action.ALL, [1])\n    action.turn_off(action.ALL, action.ALL)\n")
+               "    action.turn_off(action.ALL, [1])\n    action.turn_off(action.ALL, action.ALL)\n"
+               # tones selected by a parameter WITHOUT an annotation: one statement that records a slice form in one call and a list form in another
+               "@tweezer\ndef ktone(sel, a: float):\n    g = grid.from_positions([a, a + 1.0, a + 2.0], [0.0, 3.0])\n    action.set_loc(g)\n    action.turn_on(sel, action.ALL)\n"
+               "    action.move(grid.shift(g, 0.0, 1.0))\n    action.turn_off(sel, [0])\n    action.turn_off(action.ALL, sel)\n")
 
 SHAPE_PROGS = {
+    # views of a filled register taken with index lists that REPEAT a column, flowing into a fill and gates
+    "views-of-a-filled-register-with-repeated-indices": ("(zone: grid.Grid[Literal[3], Literal[2]], c: bool)", """
+    z = spec.get_static_trap(zone_id="traps")
+    reg = filled.vacate(z, [(0, 1), (2, 0)])
+    v = grid.sub_grid(reg, [0, 0, 2], [0, 1])
+    init.fill([v])
+    gate.local_rz(0.5, v)
+    w = grid.sub_grid(reg, [2, 2], [0, 1])
+    if c:
+        w = grid.sub_grid(reg, [0, 2, 2], [1])
+    gate.top_hat_cz(w)
+    gate.local_r(0.25, 0.5, grid.sub_grid(filled.fill(z, [(0, 0), (3, 2)]), [3, 0, 0], [2, 2]))
+"""),
+    # one device kernel whose tone selection is an unannotated parameter: given a slice in one call and an index list in the next
+    "tone-selection-slice-then-list": ("(zone: grid.Grid[Literal[3], Literal[2]], c: bool)", """
+    f = schedule.device_fn(ktone, [0, 1, 2], [0, 1])
+    f(ALL_TONES, 1.0)
+    f([0, 1], 2.0)
+    schedule.reverse(f)([0], 0.5)
+    if c:
+        f(ALL_TONES, 3.0)
+    with schedule.parallel():
+        f([0, 1], 4.0)
+        schedule.reverse(f)(ALL_TONES, 5.0)
+"""),
     # a subroutine that hands back one of two closures, the acting one from inside a branch (an early return); the kernel calls what it got
     "closure-picked-by-early-return": ("(zone: grid.Grid[Literal[3], Literal[2]], c: bool)", """
     f = schedule.device_fn(kidle, [0, 1], [0, 1])
@@ -480,8 +508,9 @@ def run(ctx):
     # two more device kernels for the fixed programs: tone switches that select NOTHING on one axis, and one that keeps its tones on
     tw_src += KIDLE_SRC
     all_kernels = kernels.define(tw_src)
-    kernel_ns = {k: v for k, v in all_kernels.items() if k in move_prog.TWEEZERS or k == "kidle"}
+    kernel_ns = {k: v for k, v in all_kernels.items() if k in move_prog.TWEEZERS or k in ("kidle", "ktone")}
     move_native.register_kernels(tw_src, kernel_ns)
+    kernel_ns["ALL_TONES"] = slice(None)            # a tone selection "all of them", held as a constant by the programs that use it
     nprog = ctx.pick(40, 400)
     ntup = ctx.pick(3, 5)
     labels_cases = []
@@ -650,8 +679,9 @@ def replay(data):
         c = C()
         S = tweezer_prog.harness_spec()
         tw_src = "".join(f"@tweezer\ndef {n}{sig}:{body}\n" for n, (sig, body, _) in move_prog.TWEEZERS.items()) + KIDLE_SRC
-        kns = {k: v for k, v in kernels.define(tw_src).items() if k in move_prog.TWEEZERS or k == "kidle"}
+        kns = {k: v for k, v in kernels.define(tw_src).items() if k in move_prog.TWEEZERS or k in ("kidle", "ktone")}
         move_native.register_kernels(tw_src, kns)
+        kns["ALL_TONES"] = slice(None)
         shape_programs(c, S, kns)
         return bool(c.fails), (c.fails or ["the route executes the events of the source"])[0][:200]
     if "src" not in inp:
